@@ -116,6 +116,13 @@ Proof. exact released_from_start. Qed.
 (* a 0.13-layout state whose books lag the escrow by a donation of 40: the migration reconciles
    (outstanding 60 -> 100, total_sent 60 -> 100), then 25 are redeemed and the 60 of the first packet
    refunded: 100 = 15 + 60 + 25 *)
+(* a migration of a contract whose stored version is already 0.13.1 or later rewrites no channel balance (nor the allow
+   list, the governance address, the channels): it can only set the default gas limit (S_C12 clause 16) *)
+Theorem c12_migrate_current_keeps_books : forall st g ok bal st',
+  (ver st = V3 \/ ver st = VCur) -> migrate st g ok bal = Ok st' ->
+  chan_state st' = chan_state st /\ allow st' = allow st /\ admin st' = admin st /\ channels st' = channels st /\
+  default_gas st' = match g with Some x => Some x | None => default_gas st end.
+Proof. exact migrate_current_keeps_books. Qed.
 Example c12_migration_nonvacuous :
   let stL := mkSt 100 None (Some 0) [(5, Some 7)] [1] [] None V2 None in
   let w := mkW stL [] in
@@ -154,3 +161,4 @@ Print Assumptions c12_update_balances.
 Print Assumptions c12_migrate_same_delta.
 Print Assumptions c12_released_all_histories.
 Print Assumptions c12_released_from_instantiate.
+Print Assumptions c12_migrate_current_keeps_books.
